@@ -70,23 +70,7 @@ example : IsLocal (fun (m : Nat → Int) y => m y + m (y + 1) + m (y + 2)) (fun 
 /-- `SaturatingRoundingDoublingHighMul` is `⌊(a·b + 2^30) / 2^31⌋` (round to nearest, ties towards +∞)
     outside its single saturating case -/
 theorem srdhm_eq_floor (a b : Int) (h : ¬ (a = INT32_MIN ∧ b = INT32_MIN)) :
-    srdhm a b = (a * b + 1073741824) / 2147483648 := by
-  unfold srdhm
-  rw [if_neg h]
-  generalize a * b = p
-  by_cases hp : p ≥ 0
-  · simp only [hp, if_true]
-    rw [Int.tdiv_eq_ediv_of_nonneg (by omega)]
-  · simp only [hp, if_false]
-    rw [Int.tdiv_eq_ediv]
-    have hs : Int.sign 2147483648 = 1 := by decide
-    rw [hs]
-    split
-    · rename_i h
-      rcases h with h | h <;> omega
-    · rename_i h
-      have h2 : ¬ (2147483648 : Int) ∣ p + (1 - 1073741824) := fun hh => h (Or.inr hh)
-      omega
+    srdhm a b = (a * b + 1073741824) / 2147483648 := srdhm_floor a b h
 
 /-- `RoundingDivideByPOT` rounds to nearest with ties away from zero -/
 theorem rdivpot_eq_cases (x : Int) (e : Nat) :
@@ -132,6 +116,30 @@ example : npuScaleTfl (-12345) 1518500250 35 = mbqm (-12345) 1518500250 (-4) := 
 example : npuScaleTfl 77 1518500250 29 = mbqm 77 1518500250 2 := by decide
 example : npuScaleNatural 100000 (reducedMultiplier 1518500250) 20 = mbqm64 100000 1518500250 (-5) := by decide
 
+/-- **ADD/SUB with 32-bit operand scaling is the reference ADD.** Under the operand-scaling rule of the executor
+    (assumption A1 of design.d/C01.md: operand A pre-shifted by L = 20 / 15 and scaled with TFL rounding, operand B
+    shifted by L − 1) and with the register values in the relation Vela establishes — OPA scale = reference multiplier
+    `m1` of the smaller-scale input, OPA shift = 31 − L − s1, OFM scale/shift = reference output multiplier — the value
+    the NPU adds the zero point to equals the reference's `raw_output` for every pair of inputs (the larger-scale
+    input has the reference multiplier 2^30 with shift 0). -/
+theorem npu_add_eq_ref (bits16 : Bool) (a b m1 mo s1 so : Int) (opaShift ofShift : Nat)
+    (h1 : 0 ≤ m1) (ho : 0 ≤ mo)
+    (hs1 : s1 = 31 - ((opaShift : Int) + (if bits16 then 15 else 20))) (hso : so = 31 - (ofShift : Int)) :
+    let L : Nat := if bits16 then 15 else 20
+    npuScaleTfl ((NpuSem.addOperands 1 bits16 a b m1.toNat opaShift 0).1 + (NpuSem.addOperands 1 bits16 a b m1.toNat opaShift 0).2) mo ofShift =
+      mbqm (mbqm (a * (2 : Int) ^ L) m1 s1 + mbqm (b * (2 : Int) ^ L) 1073741824 0) mo so := by
+  intro L
+  have hL : 1 ≤ L := by cases bits16 <;> simp [L]
+  have hm : ((m1.toNat : Nat) : Int) = m1 := Int.toNat_of_nonneg h1
+  unfold NpuSem.addOperands
+  simp only [show ¬ ((1 : Nat) = 0) by omega, if_false, if_true]
+  rw [npuScaleTfl_eq_mbqm _ mo ofShift ho, ← hso, hm, npuScaleTfl_eq_mbqm _ m1 _ h1, mbqm_half b L hL]
+  have e : (31 : Int) - ((opaShift + L : Nat) : Int) = s1 := by
+    rw [hs1]; cases bits16 <;> simp [L] <;> omega
+  rw [e]
+
+example : (NpuSem.addOperands 1 false 57 (-3) 1518500250 12 0) = (mbqm (57 * 1048576) 1518500250 (-1), -3 * 524288) := by decide
+
 /-! ## Convolution on a stripe -/
 
 /-- **A stripe of the NPU convolution equals the reference convolution.**
@@ -168,6 +176,52 @@ theorem conv_stripe_eq (H W C h a oy0 pt pt' pl kh kw sy sx dy dx : Nat)
       rw [if_pos c1, if_pos c2]
       apply sumRange_congr
       intro ic _
+      have e1 : ((((oy0 + oy) * sy + ky * dy : Nat) : Int) - pt).toNat = a + (oy * sy + ky * dy - pt') := by omega
+      have e2 : (((ox * sx + kx * dx : Nat) : Int) - pl).toNat = ox * sx + kx * dx - pl := by omega
+      rw [e1, e2, Int.sub_eq_add_neg]
+    · have c1 : ¬ (pt' ≤ oy * sy + ky * dy ∧ oy * sy + ky * dy - pt' < h ∧ pl ≤ ox * sx + kx * dx ∧ ox * sx + kx * dx - pl < W) :=
+        fun c => hx ⟨c.2.2.1, c.2.2.2⟩
+      have c2 : ¬ (0 ≤ (((oy0 + oy) * sy + ky * dy : Nat) : Int) - pt ∧ (((oy0 + oy) * sy + ky * dy : Nat) : Int) - pt < H ∧
+          0 ≤ ((ox * sx + kx * dx : Nat) : Int) - pl ∧ ((ox * sx + kx * dx : Nat) : Int) - pl < W) := by
+        intro c
+        apply hx
+        omega
+      rw [if_neg c1, if_neg c2]
+  · have hi : ¬ (0 ≤ (((oy0 + oy) * sy + ky * dy : Nat) : Int) - pt ∧ (((oy0 + oy) * sy + ky * dy : Nat) : Int) - pt < H) :=
+      fun c => hn (hr.mpr c)
+    have c1 : ¬ (pt' ≤ oy * sy + ky * dy ∧ oy * sy + ky * dy - pt' < h ∧ pl ≤ ox * sx + kx * dx ∧ ox * sx + kx * dx - pl < W) :=
+      fun c => hn ⟨c.1, c.2.1⟩
+    have c2 : ¬ (0 ≤ (((oy0 + oy) * sy + ky * dy : Nat) : Int) - pt ∧ (((oy0 + oy) * sy + ky * dy : Nat) : Int) - pt < H ∧
+        0 ≤ ((ox * sx + kx * dx : Nat) : Int) - pl ∧ ((ox * sx + kx * dx : Nat) : Int) - pl < W) :=
+      fun c => hi ⟨c.1, c.2.1⟩
+    rw [if_neg c1, if_neg c2]
+
+/-- the same for the depthwise accumulator (one input channel per output channel) -/
+theorem dw_stripe_eq (H W h a oy0 pt pt' pl kh kw sy sx dy dx : Nat)
+    (ifm : Nat → Nat → Int) (wgt : Nat → Nat → Int) (zp : Int) (oy ox : Nat)
+    (hfield : (a : Int) - pt' = (oy0 : Int) * sy - pt)
+    (hrow : ∀ ky, ky < kh →
+      ((pt' ≤ oy * sy + ky * dy ∧ oy * sy + ky * dy - pt' < h) ↔
+       (0 ≤ (((oy0 + oy) * sy + ky * dy : Nat) : Int) - pt ∧ (((oy0 + oy) * sy + ky * dy : Nat) : Int) - pt < H))) :
+    NpuSem.dwAcc h W (fun y x => ifm (a + y) x) kh kw wgt sy sx dy dx pt' pl zp oy ox =
+    TfliteRef.dwAcc H W ifm kh kw wgt sy sx dy dx pt pl (-zp) (oy0 + oy) ox := by
+  unfold NpuSem.dwAcc TfliteRef.dwAcc
+  apply sumRange_congr
+  intro ky hky
+  apply sumRange_congr
+  intro kx _
+  have hr := hrow ky hky
+  have hmul : (oy0 + oy) * sy = oy0 * sy + oy * sy := Nat.add_mul oy0 oy sy
+  simp only []
+  by_cases hn : pt' ≤ oy * sy + ky * dy ∧ oy * sy + ky * dy - pt' < h
+  · have hi := hr.mp hn
+    by_cases hx : pl ≤ ox * sx + kx * dx ∧ ox * sx + kx * dx - pl < W
+    · have c1 : pt' ≤ oy * sy + ky * dy ∧ oy * sy + ky * dy - pt' < h ∧ pl ≤ ox * sx + kx * dx ∧ ox * sx + kx * dx - pl < W :=
+        ⟨hn.1, hn.2, hx.1, hx.2⟩
+      have c2 : 0 ≤ (((oy0 + oy) * sy + ky * dy : Nat) : Int) - pt ∧ (((oy0 + oy) * sy + ky * dy : Nat) : Int) - pt < H ∧
+          0 ≤ ((ox * sx + kx * dx : Nat) : Int) - pl ∧ ((ox * sx + kx * dx : Nat) : Int) - pl < W := by
+        refine ⟨hi.1, hi.2, ?_, ?_⟩ <;> omega
+      rw [if_pos c1, if_pos c2]
       have e1 : ((((oy0 + oy) * sy + ky * dy : Nat) : Int) - pt).toNat = a + (oy * sy + ky * dy - pt') := by omega
       have e2 : (((ox * sx + kx * dx : Nat) : Int) - pl).toNat = ox * sx + kx * dx - pl := by omega
       rw [e1, e2, Int.sub_eq_add_neg]
